@@ -213,7 +213,7 @@ class DriverGen(object):
             args = "".join(self.param_cast(pt, "pbase + %d" % k) + ", " for k, (pn, pt) in enumerate(st.params))
             mk = "%s::Make%sView" % (cpp_ns(self.m), st.name)
             L.append("        case %d: { auto v = %s(%sbuf, b.size()); auto w = %s(%scpy, b.size());" % (i, mk, args, mk, args))
-            L.append("          if (tok[0] == \"U\") { bool r = ::emboss::UpdateFromText(w, utext); P(\"u\", r); P(\"okW\", w.Ok()); }")
+            L.append("          if (tok[0] == \"U\") { bool r = ::emboss::UpdateFromText(w, utext); P(\"u\", r); P(\"okW\", w.Ok()); if (r) %s(\"w\", w, 0); }" % self.obs_names[id(st)])
             L.append("          else { for (int o = 0; o < 4; ++o) { auto opts = ::emboss::TextOutputOptions().WithAllowPartialOutput(true).Multiline(o & 1).WithComments(o & 2).WithIndent(\"  \").WithNumericBase(o == 3 ? 16 : 10).WithDigitGrouping(o == 2);")
             L.append("              std::string s = ::emboss::WriteToString(v, opts); P(\"len\", std::to_string(s.size())); bool r = ::emboss::UpdateFromText(w, s); P(\"u\", r); } P(\"okW\", w.Ok()); }")
             L.append("          break; }")
